@@ -74,10 +74,17 @@ package ethereum
 //@   nopanic
 //@   at [b.blockFeed.Send(latestBlock)]: assert [published-head-is-newer-and-flagged] latestBlock != nil && latestBlock.Number != nil && bigOf(latestBlock.Number) > bigOf(lastBlock.Number) && latestBlock.Safe == safe
 
+// the switch of the head poller: the watcher keeps it on while messages wait for confirmations
 //@ func (b *BlockPollConnector) EnablePoller()
-//@   assume-contract
+//@   props C10
+//@   requires b != nil && b.enabled != nil
+//@   ensures [on] atomicBool(b.enabled)
+//@   modifies lib:atomic.Bool.v
 //@ func (b *BlockPollConnector) DisablePoller()
-//@   assume-contract
+//@   props C10
+//@   requires b != nil && b.enabled != nil
+//@   ensures [off] !atomicBool(b.enabled)
+//@   modifies lib:atomic.Bool.v
 
 // ---------------------------------------------------------------- re-observed transactions: contract, topic, status
 
@@ -113,15 +120,18 @@ package ethereum
 //@ pred wfTable(w *Watcher) = w.pending != nil
 //@   | && (forall k in dom(w.pending) :: w.pending[k] != nil && allocated(w.pending[k]) && w.pending[k].message != nil && allocated(w.pending[k].message)
 //@   |      && w.pending[k].height <= 4611686018427387904 && w.pending[k].message.TxHash == k.TxHash)
-//@ pred wfPending(w *Watcher) = w != nil && allocated(w) && w.ethConn != nil && allocated(w.ethConn) && w.ethConn.Connector != nil && w.maxWaitConfirmations <= 4294967296 && wfTable(w)
+//@ pred wfPending(w *Watcher) = w != nil && allocated(w) && w.ethConn != nil && allocated(w.ethConn) && w.ethConn.Connector != nil && w.ethConn.enabled != nil && w.maxWaitConfirmations <= 4294967296 && wfTable(w)
 
 // pendingMu guards the table of messages waiting for confirmations: the log goroutine adds
 // to it and the head goroutine scans and prunes it. The table is read and written only under
 // the mutex, wfTable holds whenever the mutex is free, and a critical section starts from an
 // arbitrary table within wfTable when the goroutine released the mutex before.
 //@ monitor (w *Watcher) pendingMu()
-//@   modifies Watcher.pending, map[pendingKey]*pendingMessage
+//@   modifies Watcher.pending, map[pendingKey]*pendingMessage, lib:atomic.Bool.v
 //@   invariant [table] wfTable(w)
+// no message waits while the head poller is switched off (it would never be looked at again):
+// both goroutines switch the poller inside their critical section
+//@   invariant [poller-on-while-pending] w.ethConn != nil && w.ethConn.enabled != nil && (len(w.pending) > 0 ==> atomicBool(w.ethConn.enabled))
 
 // the node says the transaction is gone (as opposed to failing to answer)
 //@ pred notFound(err error) = err != nil && (err == rpc.ErrNoResult || errstr(err) == "not found")
@@ -183,6 +193,7 @@ package ethereum
 //@       invariant [self] wfPending(w)
 //@     loop [range w.pending]:
 //@       invariant [self] wfPending(w) && ev != nil && ev.Number != nil
+//@       invariant [poller-stays-on] (forall k in dom(w.pending) :: atEntry(indom(w.pending, k))) && (atEntry(atomicBool(w.ethConn.enabled)) ==> atomicBool(w.ethConn.enabled)) && w.ethConn == atEntry(w.ethConn) && w.ethConn.enabled == atEntry(w.ethConn.enabled)
 //@       invariant [watcher-fields] w.maxWaitConfirmations == atEntry(w.maxWaitConfirmations)
 //@       iter-ensures [forward-only-if] nsent(w.msgChan) != old(nsent(w.msgChan)) ==>
 //@         | nsent(w.msgChan) == old(nsent(w.msgChan)) + 1 && lastsent(w.msgChan) == old(pLock.message) && !indom(w.pending, key)
